@@ -31,12 +31,12 @@ macro_rules! skein_matrix {
 skein_matrix!(
     (n1, U1, 1), (n2, U2, 2), (n7, U7, 7), (n8, U8, 8), (n9, U9, 9), (n16, U16, 16), (n20, U20, 20), (n28, U28, 28), (n31, U31, 31), (n32, U32, 32), (n33, U33, 33), (n48, U48, 48),
     (n63, U63, 63), (n64, U64, 64), (n65, U65, 65), (n96, U96, 96), (n127, U127, 127), (n128, U128, 128), (n129, U129, 129), (n160, U160, 160), (n255, U255, 255), (n256, U256, 256),
-    (n257, U257, 257), (n300, U300, 300), (n512, U512, 512)
+    (n257, U257, 257), (n300, U300, 300), (n512, U512, 512), (n16384, U16384, 16384)
 );
 
 pub fn run(tier: &str, config: &str) -> Report {
     let mut rep = Report::new("C05", tier, config);
-    rep.rule = "3 state sizes x 25 output sizes N in {1,2,7,8,9,16,20,28,31,32,33,48,63,64,65,96,127,128,129,160,255,256,257,300,512} bytes x every message length 0..=4B+2 (thorough 9B+2) of counting bytes, plus every one-hot message of lengths B and B+1 for N=32 and messages of 1000, 4097, 65537, 16B, 16B+1 bytes; compared with vref::skein (UBI over the model's own Threefish, 128-bit tweak integer); distinct_nontrivial = distinct expected digests".into();
+    rep.rule = "3 state sizes x 26 output sizes N in {1,2,7,8,9,16,20,28,31,32,33,48,63,64,65,96,127,128,129,160,255,256,257,300,512,16384} bytes (16384 = 512/256/128 output blocks: the output block counter passes one byte) x every message length 0..=4B+2 (thorough 9B+2) of counting bytes, plus every one-hot message of lengths B and B+1 for N=32 and messages of 1000, 4097, 65537, 16B, 16B+1 bytes; compared with vref::skein (UBI over the model's own Threefish, 128-bit tweak integer); distinct_nontrivial = distinct expected digests".into();
     all(&mut rep, tier);
     // one-hot messages (every message bit of a full block and of the byte after it)
     fn onehot<H: HK>(rep: &mut Report) {
